@@ -7,23 +7,52 @@ use verif_model::io::Reader;
 
 pub fn oracle(case: &[u8], obs: &mut Obs) -> Result<(), String> {
     let mut c = Choice::new(case);
+    // very rarely (two chosen non-zero bytes): an object whose .symtab links to a string table of 16..18 MiB, as a large
+    // debug build has; the linked-table accessor must answer as on the slice whatever a cache makes of ranges this big
+    if c.u8() == 0xA9 && c.u8() >= 252 {
+        use verif_model::elfw as m;
+        use verif_model::filegen::{self, FileSpec};
+        use verif_model::refs;
+        let enc = verif_model::elfw::ALL_ENC[c.below(4) as usize];
+        let mut f = FileSpec::new(enc);
+        f.add_sec(b"", m::SHT_NULL, vec![]);
+        let names: Vec<Vec<u8>> = vec![vec![], b"alpha".to_vec(), b"beta".to_vec(), b"gamma_delta".to_vec()];
+        let tab = refs::build_symtab(enc, &names, c.u16() as u64, false);
+        let mut strs = tab.strtab.clone();
+        let total = (16usize << 20) + c.below(2 << 20) as usize;
+        while strs.len() < total {
+            let k = strs.len();
+            strs.push(if k % 4093 == 0 { 0 } else { b'a' + (k % 23) as u8 });
+        }
+        *strs.last_mut().unwrap() = 0;
+        let i_str = f.add_sec(b".strtab", m::SHT_STRTAB, strs);
+        let i_sym = f.add_sec(b".symtab", m::SHT_SYMTAB, tab.symtab.clone());
+        f.secs[i_sym].hdr.sh_link = i_str as u32;
+        f.secs[i_sym].hdr.sh_entsize = m::sym_size(enc) as u64;
+        let s = f.add_sec(b".shstrtab", m::SHT_STRTAB, vec![]);
+        f.shstrndx = Some(s);
+        filegen::random_layout(&mut c, &mut f, 16);
+        let b = filegen::build(&f);
+        obs.label("string_table_above_16MiB");
+        return check(&b.bytes, "huge_strtab", "", &[], &mut c, obs, true);
+    }
     let mut o = InputOpts::default();
     o.weights = [60, 25, 15];
     o.rich.max_gap = 32;
     o.rich.many_sections = true;
     let inp = inputs::gen_input(&mut c, &o);
     let names: Vec<Vec<u8>> = inp.rich.as_ref().map(|r| r.dyn_names.clone()).unwrap_or_default();
-    check(&inp.data, inp.mode, &inp.note, &names, &mut c, obs)
+    check(&inp.data, inp.mode, &inp.note, &names, &mut c, obs, false)
 }
 
 /// raw mode: [n][n bytes driving reader behaviour and the op sequence][the ELF file]
 pub fn oracle_raw(case: &[u8], obs: &mut Obs) -> Result<(), String> {
     let (args, data) = crate::c01::split_raw(case);
     let mut c = Choice::new(args);
-    check(data, "raw_file", "", &[b"memset".to_vec(), b"use_memset".to_vec()], &mut c, obs)
+    check(data, "raw_file", "", &[b"memset".to_vec(), b"use_memset".to_vec()], &mut c, obs, false)
 }
 
-fn check(data_in: &[u8], mode: &'static str, note: &str, names: &[Vec<u8>], c: &mut Choice, obs: &mut Obs) -> Result<(), String> {
+fn check(data_in: &[u8], mode: &'static str, note: &str, names: &[Vec<u8>], c: &mut Choice, obs: &mut Obs, linked: bool) -> Result<(), String> {
     let data = &data_in.to_vec();
     let mut c = c.clone();
     struct Inp<'a> {
@@ -86,16 +115,18 @@ fn check(data_in: &[u8], mode: &'static str, note: &str, names: &[Vec<u8>], c: &
         }
     }
     let empty_table = fb.section_headers().map(|t| t.is_empty()).unwrap_or(false);
-    let (mut ops, shared) = stream::gen_ops(&mut c, nsec, nseg, data.len(), &names, 40);
+    // (the 16 MiB objects are asked for their linked tables only: the generic content digests walk every offset)
+    let huge = mode == "huge_strtab";
+    let (mut ops, shared) = if huge { (vec![], false) } else { stream::gen_ops(&mut c, nsec, nseg, data.len(), &names, 40) };
     // by-name queries taken from the file's own section-name table (incl. queries with an interior NUL spanning two
     // adjacent names), mixed into the history
-    for q in stream::file_name_queries(data, &mut c, 3) {
+    for q in if huge { vec![] } else { stream::file_name_queries(data, &mut c, 3) } {
         let at = c.idx(ops.len() + 1);
         ops.insert(at, q);
     }
     // when the choice sequence ran out while the file was generated (large files consume it), the generated history
     // degenerates; the linked-table accessors are then asked explicitly
-    if c.exhausted() || nsec >= 0xff00 {
+    if c.exhausted() || nsec >= 0xff00 || linked {
         ops.extend([Q::Symtab, Q::Dynsym, Q::Dynamic, Q::VerReq(1), Q::VerDef(1), Q::VerReq(2), Q::Symtab]);
     }
     let mut first: Vec<Option<QR>> = vec![];
@@ -171,7 +202,7 @@ pub fn property() -> Property {
     Property {
         id: "C07",
         level: "exploration",
-        rule: "cases are (file bytes from the three input modes: rich generated files with overrides/corruption, mutated linker-produced samples, raw bytes) x (an operation sequence of 0..40 stream calls drawn with repetition from counts, section_data, section_data_as_strtab/rels/relas/notes, segment_data_as_notes, section names, section_header_by_name, symbol_table, dynamic_symbol_table, dynamic, symbol-version requirement/definition queries, on the file's own headers and on fabricated headers whose (start,end) come from a pool of five boundaries so that different ranges share a start or an end and recur) (8% of the histories: 60..150 calls over many distinct fabricated ranges before the multi-range accessors) x (a reader delivering chunks of 1..n bytes and/or ErrorKind::Interrupted every n-th read, handed over with its cursor at 0, 4, 16 or a random position; in a fifth of the cases one transient hard I/O error is injected after opening: the call it hits may fail, but whenever both parsers succeed - also on a later repetition - the content must be identical). Oracle = the slice parser on the same bytes: open_stream Ok iff minimal_parse Ok; identical file header, every section header and every program header; each stream op is Ok whenever the slice op is Ok and then has an equal content digest; for section_data, both symbol tables, symbol-version queries and segment notes Ok/Err coincide exactly; after every op a randomly chosen earlier op is repeated and must answer as before. Out of scope exactly as the statement says (skipped, counted): ops on SHF_COMPRESSED sections and files whose section table is present but empty. Non-trivial: opened, >=3 ops, and two fabricated ranges sharing exactly one endpoint or a repeated range; distinct by (file, ops, reader) hash.",
+        rule: "cases are (file bytes from the three input modes: rich generated files with overrides/corruption, mutated linker-produced samples, raw bytes) x (an operation sequence of 0..40 stream calls drawn with repetition from counts, section_data, section_data_as_strtab/rels/relas/notes, segment_data_as_notes, section names, section_header_by_name, symbol_table, dynamic_symbol_table, dynamic, symbol-version requirement/definition queries, on the file's own headers and on fabricated headers whose (start,end) come from a pool of five boundaries so that different ranges share a start or an end and recur) (8% of the histories: 60..150 calls over many distinct fabricated ranges before the multi-range accessors) x (a reader delivering chunks of 1..n bytes and/or ErrorKind::Interrupted every n-th read, handed over with its cursor at 0, 4, 16 or a random position; in a fifth of the cases one transient hard I/O error is injected after opening: the call it hits may fail, but whenever both parsers succeed - also on a later repetition - the content must be identical). Oracle = the slice parser on the same bytes: open_stream Ok iff minimal_parse Ok; identical file header, every section header and every program header; each stream op is Ok whenever the slice op is Ok and then has an equal content digest; for section_data, both symbol tables, symbol-version queries and segment notes Ok/Err coincide exactly; after every op a randomly chosen earlier op is repeated and must answer as before. One case in about 16 000 is an object whose .symtab links to a string table of 16..18 MiB. Out of scope exactly as the statement says (skipped, counted): ops on SHF_COMPRESSED sections and files whose section table is present but empty. Non-trivial: opened, >=3 ops, and two fabricated ranges sharing exactly one endpoint or a repeated range; distinct by (file, ops, reader) hash.",
         assumptions: &["digests compare content, not error kinds", "the stream's dynamic() legitimately skips the sh_entsize check: only slice Ok => stream Ok is required there"],
         subs: vec![Sub::new("stream_diff", oracle, 3200, 800_000, 30_000_000).shrink(2000), Sub::new("stream_diff_raw", oracle_raw, 600, 20_000, 200_000).shrink(2000)],
         extras: vec![crate::fuzz::c07_campaign],
